@@ -86,7 +86,7 @@ func genBatch(r *RNG, withBad bool, maxLines int) *Scenario {
 		func(w *World) string { return fmt.Sprintf("ETpot=%d", r.Range(1, 5)) },
 		func(w *World) string { return fmt.Sprintf("LeachingDepth=%d", r.Range(1, w.Soil.N())) },
 	}
-	badKinds := []string{"unknown-soil", "unknown-field", "bad-texture", "bad-fractions", "weather-gap", "till-in-crop", "startyear", "weather-late", "args-no-project", "args-no-plot", "args-bad-overwrite"}
+	badKinds := []string{"unknown-soil", "unknown-field", "bad-texture", "bad-fractions", "weather-gap", "till-in-crop", "startyear", "weather-late", "args-no-project", "args-no-plot", "args-bad-overwrite", "weather-short"}
 	for i := 0; i < nl; i++ {
 		wi := r.Intn(nw)
 		w := sc.Worlds[wi]
@@ -125,6 +125,8 @@ func genBatch(r *RNG, withBad bool, maxLines int) *Scenario {
 				bl.Extra = append(bl.Extra, "plotnr="+w.Plot)
 			case "args-bad-overwrite":
 				bl.Extra = append(bl.Extra, "CropFile=PARAM.WW", r.PickS([]string{"c_NOSUCHPARAM=1", "c_TSUM_0=100", "c_TSUM_12=100", "c_PARTITION_2_9=0.5"}))
+			case "weather-short":
+				bl.Extra = append(bl.Extra, "fcode="+w.FCode+"short")
 			case "weather-late":
 				// the field starts before the first record of a series that another (good) line of the batch may have read already
 				bl.Extra = append(bl.Extra, "plotNr=19003", "fcode="+w.FCode+"late")
@@ -406,6 +408,8 @@ func errorClassOf(errText string) string {
 		return "bad-fractions"
 	case strings.Contains(errText, "missing days"):
 		return "weather-gap"
+	case strings.Contains(errText, "was not loaded") || strings.Contains(errText, "ends on day") || strings.Contains(errText, "failed to load file"):
+		return "weather-short"
 	case strings.Contains(errText, "tillage date"):
 		return "till-in-crop"
 	case strings.Contains(errText, "start year"):
